@@ -401,8 +401,7 @@ theorem sum_wAck (rx path : Nat) (A : List SentInfo) :
     · subst h1
       by_cases h2 : x.pathId = path <;> simp [h2]
     · by_cases h2 : x.pathId = path
-      · have : x.pathId ≠ rx := by rw [h2]; exact h1
-        simp [h1, h2, this]
+      · simp [h1, h2]
       · simp [h1, h2]
 
 /-- a packet declared lost by the manager: `loss::detect` said `Lost` for it, with the current
